@@ -6,6 +6,7 @@ func init() {
 		Rule:   "core scenario: one res.Service with generated pattern set (literal, $tag, >, mounted to depth 2; group absent/literal/${tag}/Parallel), 1-32 workers, in-channel 1-1024, a peer sending requests, 0-2 producer goroutines calling With/WithResource/WithGroup (group strings chosen to collide with resource-name groups and tag expansions), query events with query requests and expiry, optional Shutdown/Serve cycles.",
 		Oracle: "every callback does enter(group), yields, exit(group) with the reference group id computed by the harness's own matcher; occupancy of every non-parallel group must be <= 1 at every enter.",
 		Scen:   []ScenBudget{{"core", 6000, 400000}},
+		Probes: []string{"enqueue onto the registered work item of a busy group", "parallel handlers overlapped", "fault.slow-consumer-drop"},
 	})
 	addCheck(&CheckSpec{
 		Property: "C02", Level: "exploration",
@@ -18,6 +19,7 @@ func init() {
 		Rule:   "core scenario with the lifecycle mix: Shutdown at a tape-chosen step while producers, the peer, Reset/ResetAll/TokenEvent/TokenEventWithID/TokenReset callers and foreign-goroutine event emitters are live; 1-3 Serve/Shutdown cycles on one Service.",
 		Oracle: "bounded progress once scripted operations stop (Shutdown and Serve return within 60 simulated seconds of the last enabled action); no panic in any task or library goroutine; at Shutdown's return no callback is executing and none starts later in that epoch; connection closed exactly once per epoch; calls entirely inside the started window take effect, calls entirely inside the stopped window have none.",
 		Scen:   []ScenBudget{{"core", 8000, 500000}},
+		Probes: []string{"submission parked between started-check and lock while Shutdown closes the queue", "event parked before its publish while Shutdown runs", "worker woke to a nil queue (closing)", "Shutdown drops work that is queued but not started", "enqueue onto the registered work item of a busy group", "fault.slow-consumer-drop", "parallel handlers overlapped"},
 	})
 	addCheck(&CheckSpec{
 		Property: "C04", Level: "exploration", OwnsPanics: true,
@@ -62,6 +64,7 @@ func init() {
 		Rule:   "index scenario: badgerstore + QueryStore with two indexes on real BadgerDB (prefix empty or set); 1-3 mutator goroutines create/update/delete values whose keys come from a small printable alphabet (including unindexed nil keys, keys that are prefixes of each other, ids of different lengths); the real taskqueue index worker is parked at the start of each index task and after its commit; in query rounds every mutator is frozen between transactions while the index worker stays schedulable, and a query task calls Flush() then Query for generated (index, prefix incl. separator bytes, filter, offset, limit incl. negative and zero, reverse).",
 		Oracle: "result equals the reference: ids of the model values whose key has the prefix and passes the filter, sorted bytewise by (key, id), reversed if asked, then windowed; exact because the mutators are frozen.",
 		Scen:   []ScenBudget{{"index", 2500, 100000}},
+		Probes: []string{"Flush called while an index task is parked"},
 		Assumptions: []string{"index keys never contain the separator byte 0x00 (prefixes do)"},
 	})
 	addCheck(&CheckSpec{
